@@ -257,9 +257,12 @@ spec_strat = st.one_of(
 
 @st.composite
 def run_case(draw):
-    specs = draw(st.lists(spec_strat, max_size=4))
-    n = draw(st.integers(0, 10))
-    bufsize = draw(st.one_of(st.integers(1, 4), st.sampled_from([n + 1, 1000, None])))
+    specs = draw(st.lists(spec_strat, min_size=draw(st.sampled_from([0, 1, 1, 2, 2, 2])), max_size=4))
+    n = draw(st.sampled_from([0, 1, 2] + list(range(3, 11)) * 3))
+    bufsize = draw(st.one_of(st.integers(1, 4), st.integers(1, 4), st.integers(1, 3), st.sampled_from([n + 1, 1000, None])))
+    # LenaStopFill indices mostly inside the flow (so that stops happen in every block, also later ones)
+    specs = [[s[0], draw(st.integers(0, n))] + s[2:] if s[0] in ("fc_t", "fr_t") and n and draw(st.integers(0, 3)) else s
+             for s in specs]
     return {"specs": specs, "n": n, "bufsize": bufsize, "copy_buf": draw(st.booleans()),
             "flow_as": draw(st.sampled_from(["iter", "list"])),
             "again": draw(st.sampled_from([None, None, 0, 2, 5]))}
